@@ -525,6 +525,8 @@ func serverPart(r *vh.Run) {
 		wg.Add(1)
 		go func(kind kit.Kind) {
 			defer wg.Done()
+			t0 := time.Now()
+			defer func() { r.Max("wall_ms_server_"+string(kind), time.Since(t0).Milliseconds()) }()
 			versionAndCapsMatrix(r, kind, nRandom)
 			registrationBetweenSessions(r, kind)
 			if kind.IsStreamable() {
